@@ -9,6 +9,13 @@ COMMON_TB = [
 import os, json, subprocess, shutil
 
 
+def _limit_as():
+    """Bound the address space of a harness process (it runs the code under test in-process)."""
+    import resource
+    resource.setrlimit(resource.RLIMIT_AS, (24 << 30, 24 << 30))
+
+
+
 def empty_tie():
     return {"disagreements": [], "bad_ops": [], "oracle": [], "stats": {}, "lines": 0, "nontrivial": 0, "samples": []}
 
@@ -116,7 +123,7 @@ def c03_run(c):
     if tie is None or "crashed" in tie:
         return tie
     out = os.path.join(c["outdir"], "inf")
-    r = subprocess.run([c["exe"], "--streams", "inf", "--seed", str(c["seed"]), "--out", out, "--tier", "quick"],
+    r = subprocess.run([c["exe"], "--streams", "inf", "--seed", str(c["seed"]), "--out", out, "--tier", "quick"], preexec_fn=_limit_as,
                        stdout=subprocess.PIPE, stderr=subprocess.STDOUT, text=True, timeout=600)
     cur = os.path.join(out, "current.txt")
     state = open(cur).read().strip() if os.path.exists(cur) else ""
@@ -175,7 +182,8 @@ def c20_run(c):
         # entry points that exist only under a feature must agree with the ones that always exist
         st = streams + (",stacks" if any(("full" in f or "codec-std" in f) for f in feats) else "")
         r2 = subprocess.run([os.path.join(tdir, "release", "scale-harness"), "--streams", st, "--seed", str(c["seed"]), "--out", out,
-                             "--tier", "thorough" if c["thorough"] else "quick"], stdout=subprocess.PIPE, stderr=subprocess.STDOUT, text=True, timeout=3000)
+                             "--tier", "thorough" if c["thorough"] else "quick"], stdout=subprocess.PIPE, stderr=subprocess.STDOUT, text=True, timeout=3000,
+                            preexec_fn=_limit_as)
         if r2.returncode != 0:
             return (i, None, "harness run failed: " + r2.stdout[-800:])
         return (i, out, "")
